@@ -31,7 +31,7 @@ Definition show_file (e : path * list ds) : string :=
 
 Definition show_ffinal (c : fcfg) (s : fstateX) : string :=
   let b := fbase s in
-  "F|en="
+  "F|en=" ++ join "," (map show_ftid (fenabled c s))
   ++ "|futs=" ++ join "," (map show_fstate (futs b))
   ++ "|outs=" ++ join "," (map show_outcome (outs b))
   ++ "|main=" ++ (match main b with MEnd => "end" | _ => "live" end)
